@@ -759,6 +759,7 @@ fn accepted_streams_and_connection_calls(ctx: &RunCtx, server: quinn::Endpoint, 
                 Ok(c) => c,
                 Err(e) => return rec.borrow_mut().errors.push(format!("server handshake: {e}")),
             };
+            rec.borrow_mut().done.push("adapter-connected".into());
             let mut a = h3_quinn::Connection::new(conn);
             let mut opener: h3_quinn::OpenStreams = <AConn as quic::Connection<Bytes>>::opener(&a);
             // streams opened through the OpenStreams handle, in a task of their own
@@ -918,7 +919,7 @@ fn accepted_streams_and_connection_calls(ctx: &RunCtx, server: quinn::Endpoint, 
                     e3::spawn(&format!("peer-uni-{i}"), async move {
                         let mut s = match conn.open_uni().await {
                             Ok(s) => s,
-                            Err(e) => return rec.borrow_mut().errors.push(format!("peer open_uni: {e}")),
+                            Err(e) => return rec.borrow_mut().errors.push(format!("peer open_uni: {e} ({e:?})")),
                         };
                         let id = qid(s.id());
                         let msg = tagged(id, 10 + i as u8, l);
@@ -935,7 +936,7 @@ fn accepted_streams_and_connection_calls(ctx: &RunCtx, server: quinn::Endpoint, 
                     e3::spawn(&format!("peer-bi-{i}"), async move {
                         let (mut s, mut r) = match conn.open_bi().await {
                             Ok(x) => x,
-                            Err(e) => return rec.borrow_mut().errors.push(format!("peer open_bi: {e}")),
+                            Err(e) => return rec.borrow_mut().errors.push(format!("peer open_bi: {e} ({e:?})")),
                         };
                         let id = qid(s.id());
                         let msg = tagged(id, 50 + i as u8, l);
@@ -951,7 +952,7 @@ fn accepted_streams_and_connection_calls(ctx: &RunCtx, server: quinn::Endpoint, 
                                     rec.borrow_mut().errors.push(format!("ANSWER on bidi stream {id}: peer read {} bytes [{}], expected {} bytes (identifier {id} first)", v.len(), v.iter().take(14).map(|x| format!("{x:02x}")).collect::<String>(), want.len()));
                                 }
                             }
-                            Err(e) => return rec.borrow_mut().errors.push(format!("peer read answer: {e}")),
+                            Err(e) => return rec.borrow_mut().errors.push(format!("peer read answer: {e} ({e:?})")),
                         }
                         *finished.borrow_mut() += 1;
                     });
@@ -961,7 +962,7 @@ fn accepted_streams_and_connection_calls(ctx: &RunCtx, server: quinn::Endpoint, 
             for _ in 0..open_lens.len() {
                 let mut r = match conn.accept_uni().await {
                     Ok(r) => r,
-                    Err(e) => return rec.borrow_mut().errors.push(format!("peer accept_uni: {e}")),
+                    Err(e) => return rec.borrow_mut().errors.push(format!("peer accept_uni: {e} ({e:?})")),
                 };
                 let id = qid(r.id());
                 match r.read_to_end(1_000_000).await {
@@ -973,7 +974,7 @@ fn accepted_streams_and_connection_calls(ctx: &RunCtx, server: quinn::Endpoint, 
                             rec.borrow_mut().errors.push(format!("OPENED uni stream {id} (Quinn's identifier): peer read {} bytes [{}] which is no DATA frame carrying that identifier and a planned payload (tag byte {tag})", v.len(), v.iter().take(16).map(|x| format!("{x:02x}")).collect::<String>()));
                         }
                     }
-                    Err(e) => return rec.borrow_mut().errors.push(format!("peer read opened stream: {e}")),
+                    Err(e) => return rec.borrow_mut().errors.push(format!("peer read opened stream: {e} ({e:?})")),
                 }
             }
             // wait until everything the peer started is through
@@ -1024,9 +1025,12 @@ fn accepted_streams_and_connection_calls(ctx: &RunCtx, server: quinn::Endpoint, 
     }
     let r = rec.borrow().clone();
     let what = "accepted_and_opened_streams";
-    obs::note(|| format!("mode 4 window {sw} uni {uni_lens:?} bi {bi_lens:?} opened by the adapter {open_lens:?} (peer grants {peer_uni_limit} at a time) ending {ending} code {code} stop {stop:?} outcome {:?} errors {:?} ids {:?} done {:?}", r.outcome, r.errors, r.ids, r.done));
+    obs::note(|| format!("mode 4 window {sw} uni {uni_lens:?} bi {bi_lens:?} opened by the adapter {open_lens:?} (peer grants {peer_uni_limit} at a time) ending {ending} code {code} stop {stop:?} outcome {:?} errors {:?} ids {:?} done {:?} accepted {:?} pending {:?}", r.outcome, r.errors, r.ids, r.done, r.accepted.iter().map(|a| (a.0, a.1, a.3.len())).collect::<Vec<_>>(), e3::pending_tasks()));
     let timed_out = r.errors.iter().any(|e| e.contains("Timeout") || e.contains("TimedOut") || e.contains("timed out")) || r.outcome.iter().any(|(_, o)| o.contains("Timeout"));
-    if lossy && ending != 2 && timed_out {
+    // (also when the idle timeout is the planned ending but struck before the transfers were through: after a lossy
+    //  handshake the client's 1-RTT packets can reach the server before it has the keys, are dropped there, and the
+    //  backed-off PTO lies beyond the 10 s idle timeout of these runs - seen under seed 3, replayed, DESIGN 7.3)
+    if lossy && timed_out && (ending != 2 || !r.done.iter().any(|d| d == "peer-transfers")) {
         obs::count("probe.run_ended_by_idle_timeout_under_packet_loss");
         return RunOut::ok(false);
     }
@@ -1240,7 +1244,7 @@ fn adapter_issued_stop_and_reset(ctx: &RunCtx, server: quinn::Endpoint, client: 
                     match s.write_all(&chunk).await {
                         Ok(()) => {}
                         Err(quinn::WriteError::Stopped(c)) => return rec_w.borrow_mut().outcome.push(("peer.write".into(), format!("Stopped({})", c.into_inner()))),
-                        Err(e) => return rec_w.borrow_mut().outcome.push(("peer.write".into(), format!("{e}"))),
+                        Err(e) => return rec_w.borrow_mut().outcome.push(("peer.write".into(), format!("{e} ({e:?})"))),
                     }
                     e3::sleep(Duration::from_millis(1)).await;
                 }
@@ -1256,7 +1260,7 @@ fn adapter_issued_stop_and_reset(ctx: &RunCtx, server: quinn::Endpoint, client: 
                         Ok(Some(_)) => {}
                         Ok(None) => return rec_r.borrow_mut().outcome.push(("peer.read".into(), "end".into())),
                         Err(quinn::ReadError::Reset(c)) => return rec_r.borrow_mut().outcome.push(("peer.read".into(), format!("Reset({})", c.into_inner()))),
-                        Err(e) => return rec_r.borrow_mut().outcome.push(("peer.read".into(), format!("{e}"))),
+                        Err(e) => return rec_r.borrow_mut().outcome.push(("peer.read".into(), format!("{e} ({e:?})"))),
                     }
                 }
             };
@@ -1276,7 +1280,7 @@ fn adapter_issued_stop_and_reset(ctx: &RunCtx, server: quinn::Endpoint, client: 
     let r = rec.borrow().clone();
     let what = "stop_and_reset_issued_through_the_adapter";
     obs::note(|| format!("mode 5 window {sw} stop variant {stop_variant} code {code} after {after}; reset variant {reset_variant} code {reset_code}; whole {whole}; stop {stop:?}; outcome {:?} errors {:?} done {:?}", r.outcome, r.errors, r.done));
-    let timed_out = r.errors.iter().any(|e| e.contains("Timeout") || e.contains("TimedOut") || e.contains("timed out")) || r.outcome.iter().any(|(_, o)| o.contains("timed out"));
+    let timed_out = r.errors.iter().any(|e| e.contains("Timeout") || e.contains("TimedOut") || e.contains("timed out")) || r.outcome.iter().any(|(_, o)| o.contains("timed out") || o.contains("TimedOut"));
     if lossy && timed_out {
         obs::count("probe.run_ended_by_idle_timeout_under_packet_loss");
         return RunOut::ok(false);
@@ -1379,7 +1383,7 @@ impl Check for C17 {
             real: &["quinn 0.11, quinn-proto, rustls (ring), h3-quinn (lib.rs, datagram.rs), h3 stream::WriteBuf and frame encoding, in scenario (c) all of h3"],
             stub: &["UDP sockets, timers, task spawner and clock (engine E3: virtual time, in-memory network, choice-driven)", "the raw Quinn peer's behaviour", "a fixed Ed25519 certificate checked into /verif/sim/certs"],
             assumptions: &["ring's system RNG influences packet contents only, never sizes or timing (runs are re-executed and compared by trace hash; a divergence is a harness error)", "DATA frame headers are compared against the minimal reference encoding"],
-            quick_runs: 25_000,
+            quick_runs: 20_000,
             thorough_runs: 1_000_000,
         }
     }
